@@ -367,7 +367,8 @@ def check(pid, tier):
 
     findings = [f for f in load_findings() if f.get('property') == pid]
     for f in findings:
-        print(f"KNOWN-FINDING: property={pid} {f['raw'][len('finding:'):].strip()}")
+        rest = re.sub(r'^property=\S+\s*', '', f['raw'][len('finding:'):].strip())
+        print(f"KNOWN-FINDING: property={pid} {rest}")
 
     # obligations
     obligations = 0
